@@ -94,3 +94,44 @@ def prove_nonneg(expr: Rat, subst: Dict[str, Rat]) -> bool:
 def prove_positive(expr: Rat, subst: Dict[str, Rat]) -> bool:
     """expr >= 1 (integers) i.e. expr - 1 >= 0."""
     return prove_nonneg(expr.sub(C(1)), subst)
+
+
+def int_bounds(g, q: Rat):
+    """(lower, upper) integer bounds on the integer-valued quantity q implied by the conjunction g
+    (None when unbounded).  Understands sign facts on q + c."""
+    from .guards import OPS
+    lo = hi = None
+    items = g.a if g.kind == "and" else (g,)
+    for x in items:
+        if x.kind != "sign":
+            continue
+        signs = x.b
+        d = x.a.sub(q)
+        c = d.is_const()
+        if c is None:
+            d2 = x.a.add(q)
+            c2 = d2.is_const()
+            if c2 is None:
+                continue
+            c = -c2
+            signs = frozenset(-s for s in signs)
+        if c.denominator != 1:
+            continue
+        c = int(c)
+        # sign(q + c) in signs
+        if signs == OPS[">"]:
+            b = -c + 1
+            lo = b if lo is None else max(lo, b)
+        elif signs == OPS[">="]:
+            b = -c
+            lo = b if lo is None else max(lo, b)
+        elif signs == OPS["<"]:
+            b = -c - 1
+            hi = b if hi is None else min(hi, b)
+        elif signs == OPS["<="]:
+            b = -c
+            hi = b if hi is None else min(hi, b)
+        elif signs == OPS["=="]:
+            lo = -c if lo is None else max(lo, -c)
+            hi = -c if hi is None else min(hi, -c)
+    return lo, hi
